@@ -1214,6 +1214,9 @@ NP_FUNCS = {
     "numpy.full": np_full,
     "numpy.arange": np_arange,
     "numpy.linspace": np_linspace,
+    "operator.add": lambda interp, a, b: interp.binop("+", a, b),
+    "operator.sub": lambda interp, a, b: interp.binop("-", a, b),
+    "operator.mul": lambda interp, a, b: interp.binop("*", a, b),
     "numpy.asarray": np_asarray,
     "numpy.flatnonzero": np_flatnonzero,
     "numpy.array": np_array,
